@@ -320,6 +320,8 @@ class Shape2D(Shape):
 
     @minimal_bounding_circle_radius.setter
     def minimal_bounding_circle_radius(self, value):
+        if not value > 0:
+            raise ValueError("Radius must be greater than zero.")
         self._rescale(value / self.minimal_bounding_circle_radius)
 
     @property
@@ -349,6 +351,8 @@ class Shape2D(Shape):
 
     @minimal_centered_bounding_circle_radius.setter
     def minimal_centered_bounding_circle_radius(self, value):
+        if not value > 0:
+            raise ValueError("Radius must be greater than zero.")
         self._rescale(value / self.minimal_centered_bounding_circle_radius)
 
     @property
@@ -376,6 +380,8 @@ class Shape2D(Shape):
 
     @maximal_bounded_circle_radius.setter
     def maximal_bounded_circle_radius(self, value):
+        if not value > 0:
+            raise ValueError("Radius must be greater than zero.")
         self._rescale(value / self.maximal_bounded_circle_radius)
 
     @property
@@ -400,6 +406,8 @@ class Shape2D(Shape):
 
     @maximal_centered_bounded_circle_radius.setter
     def maximal_centered_bounded_circle_radius(self, value):
+        if not value > 0:
+            raise ValueError("Radius must be greater than zero.")
         self._rescale(value / self.maximal_centered_bounded_circle_radius)
 
 
@@ -473,6 +481,8 @@ class Shape3D(Shape):
 
     @minimal_bounding_sphere_radius.setter
     def minimal_bounding_sphere_radius(self, value):
+        if not value > 0:
+            raise ValueError("Radius must be greater than zero.")
         self._rescale(value / self.minimal_bounding_sphere_radius)
 
     @property
@@ -506,6 +516,8 @@ class Shape3D(Shape):
 
     @minimal_centered_bounding_sphere_radius.setter
     def minimal_centered_bounding_sphere_radius(self, value):
+        if not value > 0:
+            raise ValueError("Radius must be greater than zero.")
         self._rescale(value / self.minimal_centered_bounding_sphere_radius)
 
     @property
@@ -533,6 +545,8 @@ class Shape3D(Shape):
 
     @maximal_bounded_sphere_radius.setter
     def maximal_bounded_sphere_radius(self, value):
+        if not value > 0:
+            raise ValueError("Radius must be greater than zero.")
         self._rescale(value / self.maximal_bounded_sphere_radius)
 
     @property
@@ -557,4 +571,6 @@ class Shape3D(Shape):
 
     @maximal_centered_bounded_sphere_radius.setter
     def maximal_centered_bounded_sphere_radius(self, value):
+        if not value > 0:
+            raise ValueError("Radius must be greater than zero.")
         self._rescale(value / self.maximal_centered_bounded_sphere_radius)
